@@ -29,7 +29,7 @@ Theorem C16_rejected_iff_raises : forall T toks evs,
 Proof.
   intros T toks evs H. split; intro HE.
   - eapply silent_error_loud_raises; [exact H | reflexivity | exact HE].
-  - apply silent_clean_loud_same; [exact H | exact HE | reflexivity].
+  - apply silent_clean_loud_same; [exact H | exact HE].
 Qed.
 Print Assumptions C16_rejected_iff_raises.
 
@@ -39,6 +39,6 @@ Theorem C16_loud_raises_only_ddlparsererror : forall T toks e,
 Proof.
   intros T toks e H. split.
   - eapply loud_raise_is_ddl; exact H.
-  - intros evs HS. destruct (loud_raise_silent_error _ _ _ _ _ _ _ H HS) as [new [-> Hn]]. exact Hn.
+  - intros evs HS. eapply loud_raise_silent_error; eauto.
 Qed.
 Print Assumptions C16_loud_raises_only_ddlparsererror.
